@@ -196,9 +196,15 @@ fn stream_a(src: &mut Src, ctx: &mut Ctx) -> Outcome {
             ("encrypted", if a.is_encrypted() { a.clone() } else { a.elide_removing_target_with_action(a, &ObscureAction::Encrypt(bridge::case_key())) }),
         ];
         for (name, f) in forms {
-            let e = nopanic!(ctx, reference.add_assertion_envelope(f), "add-duplicate", "C07/add-duplicate");
+            let e = nopanic!(ctx, reference.add_assertion_envelope(f.clone()), "add-duplicate", "C07/add-duplicate");
             let e = tryp!(ctx, e.map_err(|x| x.to_string()), "add-duplicate", "C07/add-duplicate");
             check!(ctx, e.to_cbor_data() == ref_bytes, "add-duplicate", "C07/add-duplicate", "re-adding assertion #{} in {} form changed the envelope {}", i, name, model.show());
+            // the *_salted routes with salted = false are plain adds
+            let e = nopanic!(ctx, reference.add_assertion_envelope_salted(f.clone(), false), "add-duplicate", "C07/add-duplicate/unsalted-route");
+            let e = tryp!(ctx, e.map_err(|x| x.to_string()), "add-duplicate", "C07/add-duplicate/unsalted-route");
+            check!(ctx, e.to_cbor_data() == ref_bytes, "add-duplicate", "C07/add-duplicate/unsalted-route", "re-adding assertion #{} in {} form through add_assertion_envelope_salted(.., false) changed the envelope {}", i, name, model.show());
+            let e = nopanic!(ctx, reference.add_assertions_salted(&[f.clone(), f], false), "add-duplicate", "C07/add-duplicate/unsalted-route");
+            check!(ctx, e.to_cbor_data() == ref_bytes, "add-duplicate", "C07/add-duplicate/unsalted-route", "re-adding assertion #{} in {} form (twice) through add_assertions_salted(.., false) changed the envelope {}", i, name, model.show());
         }
     }
 
